@@ -19,6 +19,10 @@ func init() {
 func propC06(a *Analysis, r *Registry) {
 	b := NewB(a, r)
 	X := b.X
+	// functions whose own formula is an obligation elsewhere (C08, imported) stay opaque here
+	for _, f := range []string{"mathx.Lchoose", "mathx.Choose", "mathx.BetaInc"} {
+		X.NoInline[f] = true
+	}
 	const rB = "B-C06 formula"
 	ki := [][2]string{{"ki", "int(floor(k))"}}
 	b.Formula(rB, "stats.(BinomialDist).PMF", "stats.(BinomialDist).PMF", []string{"d", "k"}, ki, 0,
